@@ -1014,10 +1014,31 @@ func (n *node) sendMessages(msgs []pb.Message) {
 	}
 }
 
+// replicateAfterPersist returns a boolean flag indicating whether the
+// Replicate messages in the update have to wait until the update is
+// persisted. This is the case when the leadership just changed: a node with a
+// single node quorum becomes the leader of a new term without sending any vote
+// request, its new term is thus not persisted yet when its first Replicate
+// messages are generated. Sending them early allows the same term to be
+// reused with different entries after a crash.
+func replicateAfterPersist(ud pb.Update) bool {
+	return ud.LeaderUpdate.Term != 0
+}
+
 func (n *node) sendReplicateMessages(ud pb.Update) {
+	// Replicate messages are sent before the entries in the same update are
+	// persisted. A leader with a single node quorum commits entries as soon as
+	// they are appended, the commit index carried by such early messages is
+	// thus capped at what has already been persisted locally, so that other
+	// replicas, e.g. non-voting members, never apply entries that can still be
+	// lost by the leader in a crash.
+	_, persisted := n.logReader.GetRange()
 	for _, msg := range ud.Messages {
 		if isFreeOrderMessage(msg) {
 			msg.ShardID = n.shardID
+			if msg.Type == pb.Replicate && msg.Commit > persisted {
+				msg.Commit = persisted
+			}
 			n.sendRaftMessage(msg)
 		}
 	}
@@ -1105,6 +1126,9 @@ func (n *node) applyRaftUpdates(ud pb.Update) {
 func (n *node) processRaftUpdate(ud pb.Update) error {
 	if err := n.logReader.Append(ud.EntriesToSave); err != nil {
 		return err
+	}
+	if replicateAfterPersist(ud) {
+		n.sendReplicateMessages(ud)
 	}
 	n.sendMessages(ud.Messages)
 	if err := n.removeLog(); err != nil {
